@@ -73,6 +73,8 @@ def positions_expr(i, R, W):
         ('default', 'fn fd%s(x: %s ?= %s)->int{ 0 }' % (i, r, W)),
         ('lambda-return', 'let vl%s: ()->(%s) = ()->{ %s };' % (i, r, W)),
         ('method-arg', 'fn fm%s(a: int, x: %s)->int{ 0 } let vm%s = 1.fm%s(%s);' % (i, r, i, i, W)),
+        ('lambda-default', 'let vd%s = (x: %s ?= %s)->{ 0 };' % (i, r, W)),
+        ('lambda-default2', 'let vdd%s = (a: int, x: %s ?= %s, y: int ?= 1)->{ a };' % (i, r, W)),
     ]
 
 
@@ -432,7 +434,7 @@ def run(tier):
                  'reference = assignability / least-common-type / generic-binding relation written from the documented rules '
                  '(mc/model/types.py). A: complete (required, supplied) matrix over a universe closed under Sequence / Optional / Generator / '
                  'Stack / Mapping / Set / tuples / callables (written types, lambdas, named functions with optional parameters) / generic '
-                 'structs and unions with 0-2 parameters / the bottom type, to depth 1 (quick) or 2 (thorough), in 8 syntactic positions '
+                 'structs and unions with 0-2 parameters / the bottom type, to depth 1 (quick) or 2 (thorough), in 10 syntactic positions '
                  'with a literal witness and 5 positions with a parameter of the supplied type; B: %d generic signatures x all argument '
                  'tuples over a pool, with result-type probes; C: 7 type-inferring forms x all part combinations, with probes; compile-only; '
                  'non-trivial = distinct programs' % len(GSIGS))
